@@ -823,6 +823,55 @@ fn verif_rx_transmit_sync() {
     core::mem::forget(f);
 }
 
+// PROBE-BEGIN (throw-away measurements, removed before hand-over)
+#[cfg(kani)]
+fn stub_impl_probe<R>(_this: &mut Reassembler, reader: &mut R) -> Result<(), R::Error>
+where
+    R: buffer::Reader + ?Sized,
+{
+    unsafe {
+        WR_CALLS += 1;
+        WR_OFF = reader.current_offset().as_u64();
+        WR_LEN = reader.buffered_len();
+    }
+    Ok(())
+}
+
+#[cfg_attr(kani, kani::proof)]
+#[cfg_attr(kani, kani::unwind(6))]
+#[cfg_attr(kani, kani::stub(Reassembler::write_reader_impl, stub_impl_probe))]
+fn verif_rx_probe_private_stub() {
+    let mut f = any_stream(RECEIVING);
+    #[cfg(kani)]
+    unsafe {
+        WR_CALLS = 0;
+    }
+    let payload: [u8; 4] = kani::any();
+    let (frame, _off, _len, _is_fin) = any_frame(&payload);
+    let mut events = StreamEvents::new();
+    let r = f.s.on_data(&frame, &mut events);
+    kani::cover!(r.is_ok(), "accepted");
+    #[cfg(kani)]
+    assert!(r.is_err() || unsafe { WR_CALLS } == 1);
+    core::mem::forget(events);
+    core::mem::forget(f);
+}
+
+#[cfg_attr(kani, kani::proof)]
+#[cfg_attr(kani, kani::unwind(6))]
+fn verif_rx_probe_real_write() {
+    let mut f = any_stream(RECEIVING);
+    let payload: [u8; 4] = kani::any();
+    let (frame, _off, _len, _is_fin) = any_frame(&payload);
+    let mut events = StreamEvents::new();
+    let r = f.s.on_data(&frame, &mut events);
+    kani::cover!(r.is_ok(), "accepted");
+    assert!(r.is_err() || f.s.receive_buffer.final_size().is_some() == (f.c.fin != UNKNOWN || frame.is_fin));
+    core::mem::forget(events);
+    core::mem::forget(f);
+}
+// PROBE-END
+
 // ---- generated by tools/fixup.py: native replay entry ----
 #[cfg(not(kani))]
 #[test]
@@ -834,5 +883,7 @@ fn verif_replay() {
         ("verif_rx_on_reset_below_received_finding_witness", verif_rx_on_reset_below_received_finding_witness),
         ("verif_rx_stop_sending", verif_rx_stop_sending),
         ("verif_rx_transmit_sync", verif_rx_transmit_sync),
+        ("verif_rx_probe_private_stub", verif_rx_probe_private_stub),
+        ("verif_rx_probe_real_write", verif_rx_probe_real_write),
     ]);
 }
